@@ -4840,6 +4840,133 @@ def r12_12(prog, rep, rid='R12.12'):
 
 
 # ------------------------------------------------------------------------------
+# R12.19  only the add_pilots path stores a pilot object in a record
+#
+def _in_add_path(prog, f, g, node, depth=0):
+    """True / False / None (cannot tell): the site runs only for the
+    'add_pilots' command: it lies in add_pilots / _add_pilots, on the branch
+    cmd == 'add_pilots' of control_cb, or in a helper all of whose call sites
+    do"""
+    if f.name in ('add_pilots', '_add_pilots'):
+        return True
+    cmds = False
+    for a, pol, tid in guard_facts(g, node.id):
+        cc = const_compare(prog, f.module, a, f.cls)
+        if cc and cc[2] and all(isinstance(x, str) and x.endswith(
+                ('_pilots', '_tasks')) for x in cc[2]):
+            cmds = True
+            if cc[2] == frozenset(['add_pilots']) and (cc[1] == 'in') == pol:
+                return True
+    if cmds:
+        return False
+    if f.name == 'control_cb':
+        return None         # dispatched in a way the guards do not show
+    if depth >= 2:
+        return False
+    verdicts = []
+    seen = set()
+    for rel, cname in (BASE, RR, BF):
+        for mname, m in prog.cls(rel, cname).methods.items():
+            if id(m.node) in seen or m.node is f.node:
+                continue
+            seen.add(id(m.node))
+            cs = [c for c in calls_in(m.node)
+                  if call_name(c) == 'self.' + f.name]
+            if not cs:
+                continue
+            mg = cfg_of(m)
+            msmap = I.stmt_node_map(mg)
+            for c in cs:
+                if id(c) not in msmap:
+                    verdicts.append(False)
+                    continue
+                verdicts.append(_in_add_path(prog, m, mg, msmap[id(c)],
+                                             depth + 1))
+    if not verdicts or any(v is False for v in verdicts):
+        return False
+    if any(v is None for v in verdicts):
+        return None
+    return True
+
+
+def _is_none_value(g, v, at):
+    """v is the constant None (directly, or a local all of whose reaching
+    definitions assign the constant None)"""
+    if isinstance(v, ast.Constant):
+        return v.value is None
+    if isinstance(v, ast.Name):
+        defs, undef = defs_reaching(g, v.id, at)
+        vals = [assigned_value(d.ast, v.id) if d.kind == 'stmt' else None
+                for d in defs]
+        return bool(defs) and not undef and all(
+            isinstance(x, ast.Constant) and x.value is None for x in vals)
+    return False
+
+
+def r12_19(prog, rep, rid='R12.19'):
+    rep.rule(rid, "the 'pilot' field of a record in self._pilots - whose truth "
+             'value work() and the schedulers read as "this pilot was added" - '
+             "receives a value other than None only on the 'add_pilots' path "
+             '(control_cb for that command, add_pilots); every other writer of '
+             'a record (the placeholder for a pilot first seen in a state '
+             'notification) stores None', minimum=1)
+    seen = set()
+    for rel, cname in (BASE, RR, BF):
+        K = prog.cls(rel, cname)
+        for mname, f in sorted(K.methods.items()):
+            if id(f.node) in seen or mname in STARTUP:
+                continue
+            seen.add(id(f.node))
+            g = cfg_of(f)
+            smap = I.stmt_node_map(g)
+            sites = []      # (stmt, cfg node, key text, value)
+            for n, node, key, ds in record_stores(f, g):
+                for d in ds:
+                    v = dict_field(d, 'pilot')
+                    if v is not None:
+                        sites.append((n, node, unparse(key), v))
+            for kind, t, st in I.stores(f.node):
+                if kind != 'assign' or id(st) not in smap:
+                    continue
+                sn = smap[id(st)]
+                k = pilot_entry(resolve_local(g, t, sn.id), 'pilot')
+                if k is not None:
+                    sites.append((st, sn, unparse(k), st.value))
+            for n, node, kt, v in sites:
+                rep.saw(f)
+                if _is_none_value(g, v, node.id):
+                    rep.ok(rid, f, "%s.%s: `%s` stores None under 'pilot'"
+                           % (cname, mname, short(n, 50)), f.loc(n))
+                    continue
+                where = _in_add_path(prog, f, g, node)
+                if where is None:
+                    rep.info(rid, f, "%s.%s: `%s` stores a pilot object; the "
+                             'command it runs for is not visible in the guards'
+                             % (cname, mname, short(n, 50)), f.loc(n))
+                    continue
+                rep.check(where, rid, f, "%s.%s: `%s` stores the pilot object "
+                          "on the 'add_pilots' path" % (cname, mname,
+                                                        short(n, 50)),
+                          construct="self._pilots[%s]['pilot'] = %s"
+                          % (kt, short(v, 40)),
+                          message="%s.%s: `%s` stores `%s` under 'pilot' of the "
+                          'record of a pilot outside the add_pilots path: the '
+                          "truth value of self._pilots[pid]['pilot'] is what "
+                          'work() (and R12.8\'s guards) read as "the pilot was '
+                          'added", so a pilot which is only known from a state '
+                          'notification counts as added: an early-bound task is '
+                          'assigned and forwarded at once instead of waiting in '
+                          'self._early for add_pilots'
+                          % (cname, mname, short(n, 60), short(v, 40)),
+                          loc=f.loc(n),
+                          history='state notification for pilot p1 arrives '
+                          "before add_pilots(p1); work([t]) with t['pilot'] == "
+                          'p1: t is bound to p1 and advanced to '
+                          'TMGR_STAGING_INPUT_PENDING although p1 was never '
+                          'added to this task manager')
+
+
+# ------------------------------------------------------------------------------
 #
 def run(prog, rep, tier):
     rep.decided = ('the pilot bound by both _schedule_tasks derives from '
@@ -4912,7 +5039,7 @@ def run(prog, rep, tier):
     for rule in (r12_1, r12_2, r12_3, sites, r12_5, r12_6, r12_7, r12_8,
                  r12_9, r12_10, r12_11, r12_12, r12_13, r12_14,
                  r12_15, r12_16, r12_17,
-                 r12_18):
+                 r12_18, r12_19):
         rep.attempt(rule, prog, rep)
     if tier == 'thorough':
         rep.rule('R12.4s', 'sweep of R12.4 over every class of the package that '
@@ -5909,4 +6036,48 @@ SILENT += [
         (_S, _S_PATH, "                pilot_sandbox.path = '%s/%s/' % (pilot_sandbox.path, pid)\n"),
         (_S, "                self._cache['pilot_sandbox'][pid] = pilot_sandbox\n",
              "                self._cache['pilot_sandbox'].setdefault(pid, pilot_sandbox)\n")]),
+]
+
+# round 8 (k1): who may store a pilot object in a record (R12.19)
+_PH = ("                if pid not in self._pilots:\n"
+       "                    self._pilots[pid] = {'role'  : None,\n"
+       "                                         'state' : None,\n"
+       "                                         'pilot' : None,\n"
+       "                                         'info'  : dict()  # scheduler private info\n")
+_ST = "                    self._pilots[pid]['state'] = target\n"
+
+MUTATIONS += [
+    dict(name='R12.19 placeholder of _update_pilot_states keeps the pilot document', rules=('R12.19',), edits=[
+        (_B, _PH, _PH.replace("'pilot' : None", "'pilot' : pilot"))]),
+    dict(name='R12.19 _update_pilot_states refreshes the pilot document with the state', rules=('R12.19',), edits=[
+        (_B, _ST, _ST + "                    self._pilots[pid]['pilot'] = pilot\n")]),
+    dict(name='R12.19 placeholder built in a local with a copy of the document', rules=('R12.19',), edits=[
+        (_B, _PH, "                if pid not in self._pilots:\n"
+                  "                    entry = {'role'  : None,\n"
+                  "                             'state' : None,\n"
+                  "                             'pilot' : dict(pilot),\n"
+                  "                             'info'  : dict()\n"
+                  "                             }\n"
+                  "                    self._pilots[pid] = entry\n"
+                  "                if False:\n"
+                  "                    _unused =           {\n")]),
+]
+
+SILENT += [
+    dict(name='_update_pilot_states: placeholder built in a local, None through a name', edits=[
+        (_B, _PH, "                if pid not in self._pilots:\n"
+                  "                    nothing = None\n"
+                  "                    entry = {'role'  : nothing,\n"
+                  "                             'state' : None,\n"
+                  "                             'pilot' : nothing,\n"
+                  "                             'info'  : dict()\n"
+                  "                             }\n"
+                  "                    self._pilots[pid] = entry\n"
+                  "                if False:\n"
+                  "                    _unused =           {\n")]),
+    dict(name="_update_pilot_states: placeholder by dict(..) call without a 'pilot' default change", edits=[
+        (_B, _PH, "                if pid not in self._pilots:\n"
+                  "                    self._pilots[pid] = dict(role=None, state=None, pilot=None, info=dict())\n"
+                  "                if False:\n"
+                  "                    _unused =           {\n")]),
 ]
